@@ -375,8 +375,8 @@ def _rss_watchdog(pgid, stop, limit_kb, total_kb, logf):
 
 def run_kani(repo, target, full_names, jobs, timeout_each, out_json, logf, extra=()):
     import threading
-    limit_kb = int(os.environ.get("VERIF_CBMC_RSS_KB", str(20 * 1024 * 1024)))
-    total_kb = int(os.environ.get("VERIF_TOTAL_RSS_KB", str(44 * 1024 * 1024)))
+    limit_kb = int(os.environ.get("VERIF_CBMC_RSS_KB", str(28 * 1024 * 1024)))
+    total_kb = int(os.environ.get("VERIF_TOTAL_RSS_KB", str(50 * 1024 * 1024)))
     cmd = ["cargo", "kani", "--target-dir", target, "-Z", "unstable-options", "-Z", "stubbing",
            "--exact", "-j", str(jobs), "--output-format", "terse",
            "--harness-timeout", f"{timeout_each}s", "--export-json", out_json]
@@ -547,8 +547,8 @@ def concrete_playback(repo, target, h, workdir, extra=()):
     with open(logf, "w") as lf:
         p = subprocess.Popen(cmd, cwd=repo, stdout=lf, stderr=subprocess.STDOUT, env=kani_env(), start_new_session=True)
         stop = threading.Event()
-        wd = threading.Thread(target=_rss_watchdog, args=(p.pid, stop, int(os.environ.get("VERIF_CBMC_RSS_KB", str(20 * 1024 * 1024))),
-                                                           int(os.environ.get("VERIF_TOTAL_RSS_KB", str(44 * 1024 * 1024))), logf), daemon=True)
+        wd = threading.Thread(target=_rss_watchdog, args=(p.pid, stop, int(os.environ.get("VERIF_CBMC_RSS_KB", str(28 * 1024 * 1024))),
+                                                           int(os.environ.get("VERIF_TOTAL_RSS_KB", str(50 * 1024 * 1024))), logf), daemon=True)
         wd.start()
         try:
             p.wait(timeout=cap)
@@ -592,6 +592,14 @@ def replay_file(prop, spec, path, workdir):
     repo = prepare(spec, workdir, None)
     hf = os.path.join(workdir, "harness", prop, m.group(1))
     tests = re.findall(r"(#\[test\]\s*\n\s*fn kani_concrete_playback_\w+\(\)\s*\{.*?\n\})", txt, re.S)
+    if not tests:
+        # solver-level replay file: decide the named harness again against the current tree
+        m2 = re.search(r"--only '\^(\w+)\$'", txt)
+        if not m2:
+            print("replay file holds neither a native test nor a harness name")
+            return 2
+        r = sh([sys.executable, os.path.abspath(__file__), prop, "--only", "^" + m2.group(1) + "$", "--no-evidence"])
+        return r.returncode
     with open(hf, "a") as fh:
         fh.write("\n" + "\n".join(tests) + "\n")
     names = re.findall(r"fn (kani_concrete_playback_\w+)\(", "\n".join(tests))
